@@ -56,10 +56,8 @@ EPS = 2.0 ** -52
 MDF = 1e2 * EPS                      # AndersonAccelParams::min_div_fac default
 KEY_DEP = 'C10-add_column-dependent-column-division-by-zero-norm_q'
 KEY_ZPIV = 'C10-solve_col-exact-zero-pivot-division-tol0'
-STATS = {'orth_checked': 0, 'orth_skipped_illcond': 0, 'solve_checked': 0, 'solve_thresholded': 0,
-         'poisoned_skipped': 0, 'aa_checked': 0, 'aa_ls_checked': 0, 'aa_ls_skipped': 0,
-         'dependent_adds': 0, 'zero_pivot_divisions': 0, 'solve_dependent_checked': 0, 'exhaustive_nodes': 0, 'max_qr_err': 0.0, 'max_orth_err': 0.0,
-         'max_normal_eq': 0.0}
+KEY_EIG = 'C10-stale-min-max-eig-anderson-threshold'
+STATS = {'exhaustive_nodes': 0}        # counters / maxima of the monitors and generators (evidence: monitor_stats)
 
 
 # ---------------------------------------------------------------- generation
@@ -190,6 +188,54 @@ def random_qr(rng, count):
     return ops
 
 
+def neardep_angle(rng, count):
+    """Nearly parallel columns: v₂ = c·v₁ + δ·w with δ = 1e-8 … 1e-12 (angle ≈ δ).  One Gram-Schmidt pass leaves
+    q₂ᵀq₁ ≈ ε/δ = 1e-8 … 1e-4; the reorthogonalisation pass (`norm_q < η·norm_v`, η = 0.7) brings it back to ≈ ε.
+    This is the class that distinguishes the reorthogonalisation loop from a single pass (monitor: ORTH_BOUND)."""
+    ops = []
+    for _ in range(count):
+        n = rng.randint(2, 6)
+        m = rng.randint(2, min(n, 4))
+        ops.append(f'new {n} {m}')
+        win = []
+        for step in range(rng.randint(m, m + 4)):
+            if len(win) == m:
+                ops.append('rem'); win.pop(0)
+            if not win:
+                v = [rng.gauss(0, 1) for _ in range(n)]
+            else:
+                base = rng.choice(win)
+                c = rng.choice([1.0, -1.0, 0.5, 2.0, rng.uniform(0.3, 3.0)])
+                dl = 10 ** rng.uniform(-12, -8)
+                v = [c * base[j] + dl * rng.gauss(0, 1) for j in range(n)]
+            ops.append('add ' + vec2p(v)); win.append(v)
+            STATS['gen_neardep_angle_adds'] = STATS.get('gen_neardep_angle_adds', 0) + (1 if len(win) > 1 else 0)
+            if rng.random() < 0.5:
+                ops.append(solve_line(rng, n, m))
+    return ops
+
+
+def converging_aa(rng, count):
+    """Anderson on a linearly converging fixed-point iteration WITHOUT noise: the residuals (and the pivots of R)
+    shrink by a constant factor per step over many orders of magnitude, while the window stays well conditioned —
+    the situation of a slowly converging solver.  A threshold relative to a pivot that left the window long ago
+    (stale max_eig) zeroes γ_LS here."""
+    ops = []
+    for _ in range(count):
+        n = rng.randint(2, 5)
+        mem = rng.choice([1, 2, 2, 3])
+        ops.append(f'anew {n} {mem} {f2h(rng.choice([MDF, MDF, 1e-10]))}')
+        rate = rng.choice([0.1, 0.1, 0.03, 0.3])
+        dirs = [[rng.gauss(0, 1) for _ in range(n)] for _ in range(n + 1)]
+        gfix = [rng.gauss(0, 1) for _ in range(n)]
+        for k in range(rng.randint(18, 26)):
+            r = [rate ** k * v for v in dirs[k % (n + 1)]]
+            g = [a + b for a, b in zip(gfix, r)]
+            ops.append(('ainit ' if k == 0 else 'acomp ') + f'{vec2p(g)} {vec2p(r)}')
+            STATS['gen_converging_aa_steps'] = STATS.get('gen_converging_aa_steps', 0) + 1
+    return ops
+
+
 def random_aa(rng, count):
     """Anderson on fixed-point-like data: g(x) = Mx + c contractions plus noise, restarts, rescalings,
     memory above and below n; a few degenerate runs (repeated residual → dependent column)."""
@@ -235,19 +281,43 @@ ZERO_SCALE_OPS = [
     'new 2 2', 'add ' + vec2p([1.0, 0.0]), 'add ' + vec2p([1.0, 1.0]), 'scale ' + f2h(0.0),
     'solve ' + vec2p([1.0, 1.0]) + ' ' + f2h(1e-12) + ' ' + vec2p([7.0, 7.0]),
     'solve ' + vec2p([1.0, 1.0]) + ' ' + f2h(0.0) + ' ' + vec2p([7.0, 7.0]),
+    # negative threshold on zero pivots: the excluded point `0 ≤ tol ∨ PivNZ s` (exemption counted)
+    'solve ' + vec2p([1.0, 1.0]) + ' ' + f2h(-1.0) + ' ' + vec2p([7.0, 7.0]),
+    # dependent column followed by remove_column: unit column of Q with an exactly zero pivot (deflated statement)
+    'new 2 3', 'add ' + vec2p([1.0, 0.0]), 'add ' + vec2p([0.0, 0.0]), 'add ' + vec2p([1.0, 1.0]), 'rem',
+    'solve ' + vec2p([1.0, 3.0]) + ' ' + f2h(0.0) + ' ' + vec2p([7.0, 7.0, 7.0]),
 ]
+
+
+def _stale_eig_ops():
+    """The auditor's scenario (AUDIT-2 #2): memory 2, n = 3, residuals scaled 10^-k, window condition ≈ 10."""
+    base = [[1.0, 0.3, -0.2], [0.4, -1.0, 0.5], [-0.3, 0.6, 1.0]]
+    ops = [f'anew 3 2 {f2h(MDF)}']
+    for k in range(20):
+        r = [10.0 ** (-k) * v for v in base[k % 3]]
+        g = [1.0 + 0.1 * k, 2.0 - 0.1 * k, 0.5 * k]
+        ops.append(('ainit ' if k == 0 else 'acomp ') + f'{vec2p(g)} {vec2p(r)}')
+    # the same bounds on a bare LimitedMemoryQR: the largest pivot leaves the window / a negative rescaling
+    ops += ['new 2 2', 'add ' + vec2p([8.0, 0.0]), 'add ' + vec2p([0.0, 0.5]), 'rem', 'add ' + vec2p([0.25, 0.0]),
+            'scale ' + f2h(-2.0)]
+    return ops
+
+
+STALE_EIG_OPS = _stale_eig_ops()
 
 
 def gen_ops(rng, n):
     """n = size knob: (exhaustive length over all four letters, exhaustive length over {add, remove},
     #random QR sequences, #random Anderson sequences)."""
     L, L2, nq, na = n
-    ops = list(ZERO_SCALE_OPS)
+    ops = list(ZERO_SCALE_OPS) + list(STALE_EIG_OPS)
     ops += exhaustive(rng, L, (1, 2, 3), (1, 2, 3, 4))
     if L2 > L:          # deeper, over {add, remove} only (ring wrap-around at every phase)
         ops += exhaustive(rng, L2, (1, 2, 3), (1, 2, 3, 4), 'AR')
     ops += random_qr(rng, nq)
+    ops += neardep_angle(rng, max(20, nq // 4))
     ops += random_aa(rng, na)
+    ops += converging_aa(rng, max(10, na // 10))
     return ops
 
 
@@ -296,6 +366,30 @@ def finite(xs):
 
 
 # ---------------------------------------------------------------- QR monitors
+#
+# What is independent of the code under test: the window A (own record of the op lines), b, the thresholds
+# (`tol` of the op line; Anderson: min_div_fac × OUR max |pivot|), the condition number and the exact rank of A
+# (numpy SVD of A / exact rational elimination of A).  What necessarily comes from the real code: Q, R, x, γ_LS —
+# the outputs the property is about.  Arithmetic: binary64 numpy with the stated bounds; exact rationals for
+# the rank, for the Anderson affine combination and — on nearly dependent windows, where binary64 evaluation of
+# Aᵀ(Ax − b) cancels — for the normal-equation residual.  No monitor is gated by a condition estimate any more:
+# the nearly dependent class is reported under its own counters with the same κ-free bounds.
+
+ORTH_BOUND = 1e-10          # ‖QᵀQ − diag(alive)‖_max, every window (two MGS passes give ~1e-16; one pass ε/angle)
+REPR_BOUND = 1e-10          # ‖(QR − A)[:, k]‖ ≤ REPR_BOUND·‖A[:, k]‖
+ROW_BOUND = 1e-10           # |q_rᵀ(A x − b)| ≤ ROW_BOUND·(|q_r|ᵀ(|A||x| + |b|))
+NE_BOUND = 1e-9             # ‖Aᵀ(Ax − b)‖ ≤ NE_BOUND·‖A‖_F(‖A‖_F‖x‖ + ‖b‖): backward-error form, no condition number
+ILL = 1e5                   # class boundary only (reporting / exact-rational evaluation), never an exemption
+
+
+def bump(k, v=1):
+    STATS[k] = STATS.get(k, 0) + v
+
+
+def peak(k, v):
+    if v > STATS.get(k, 0.0):
+        STATS[k] = float(v)
+
 
 def check_ring(d, K, head, m):
     if d['K'] != K or d['hist'] != K:
@@ -316,52 +410,175 @@ def check_ring(d, K, head, m):
 
 
 def window_cond(A):
-    """2-norm condition number of the column-normalised window (inf if rank deficient)."""
+    """2-norm condition number of the column-normalised window (inf if rank deficient) — from OUR data."""
+    if A.shape[1] == 0:
+        return 1.0
     nrm = np.linalg.norm(A, axis=0)
-    if np.any(nrm == 0) or A.shape[1] > A.shape[0]:
+    if np.any(nrm == 0) or A.shape[1] > A.shape[0] or not np.all(np.isfinite(A)):
         return math.inf
     sv = np.linalg.svd(A / nrm, compute_uv=False)
     return math.inf if sv[-1] == 0 else sv[0] / sv[-1]
 
 
-def check_factorisation(d, win, n, st):
-    """‖QR − A‖ per column, R upper triangular, ‖QᵀQ − I‖ when the window is well conditioned."""
+def exact_rank(cols):
+    """Rank of the window over ℚ (the doubles are rationals): fraction-free Gaussian elimination."""
+    rows = [[Fr(c[j]) for c in cols] for j in range(len(cols[0]))] if cols else []
+    rank, K = 0, len(cols)
+    for k in range(K):
+        piv = next((i for i in range(rank, len(rows)) if rows[i][k] != 0), None)
+        if piv is None:
+            continue
+        rows[rank], rows[piv] = rows[piv], rows[rank]
+        pr = rows[rank]
+        for i in range(rank + 1, len(rows)):
+            if rows[i][k] != 0:
+                f = rows[i][k] / pr[k]
+                rows[i] = [a - f * b for a, b in zip(rows[i], pr)]
+        rank += 1
+    return rank
+
+
+def mats(d, n):
     K = d['K']
-    if K == 0:
-        return None
     R = np.array(d['R']).reshape(K, K).T        # dumped column-major
     Q = np.array(d['Q']).reshape(K, n).T
+    return R, Q
+
+
+def check_eig(d, n):
+    """get_min_eig() / get_max_eig() ("minimum / maximum eigenvalue of R") against the extreme diagonal entries
+    of the CURRENT R, taken from the printed R.  Returns a (message, key) pair: known finding KEY_EIG."""
+    K = d['K']
+    R, _ = mats(d, n)
+    diag = [R[i, i] for i in range(K)]
+    own_min = min(diag) if K else math.inf
+    own_max = max(diag) if K else -math.inf
+    bump('eig_bounds_compared')
+    if f2h(d['min']) == f2h(own_min) and f2h(d['max']) == f2h(own_max):
+        return None
+    if d['min'] == own_min and d['max'] == own_max:          # ±0
+        return None
+    bump('eig_bounds_stale')
+    return (f'get_min_eig() / get_max_eig() = {d["min"]!r} / {d["max"]!r}, but the diagonal of the current R is '
+            f'{diag} (extremes {own_min!r} / {own_max!r}): the bounds are not those of the current window', KEY_EIG)
+
+
+def check_factorisation(d, win, n, st, label=''):
+    """‖QR − A‖ per column; Gram matrix of Q = diag(alive) for EVERY window (alive = nonzero column of Q); a zero
+    column of Q only on an exactly rank-deficient window, with a zero row of R."""
+    K = d['K']
+    if K == 0:
+        st['cond'] = 1.0
+        return None
+    R, Q = mats(d, n)
     A = np.array(win, dtype=float).T
-    for k in range(K):
-        for i in range(k + 1, K):
-            if R[i, k] != 0.0:
-                return f'get_R() is not upper triangular: R[{i},{k}] = {R[i, k]!r}'
     QR = Q @ R
     for k in range(K):
         na = np.linalg.norm(A[:, k])
         err = np.linalg.norm(QR[:, k] - A[:, k])
-        rel = err / na if na > 0 else err
-        STATS['max_qr_err'] = max(STATS['max_qr_err'], rel)
-        if not err <= 1e-10 * na + 1e-290:
-            return (f'‖(QR − A)[:, {k}]‖ = {err:.3e} > 1e-10·‖A[:, {k}]‖ = {1e-10 * na:.3e} '
+        peak('max_qr_err', err / na if na > 0 else err)
+        if not err <= REPR_BOUND * na + 1e-290:
+            return (f'‖(QR − A)[:, {k}]‖ = {err:.3e} > {REPR_BOUND}·‖A[:, {k}]‖ = {REPR_BOUND * na:.3e} '
                     f'(the factorisation does not represent the window)')
     cond = window_cond(A)
     st['cond'] = cond
-    if cond <= 1e5:
-        E = np.abs(Q.T @ Q - np.eye(K)).max()
-        STATS['orth_checked'] += 1
-        STATS['max_orth_err'] = max(STATS['max_orth_err'], E)
-        if not E <= 1e-10:
-            return f'‖QᵀQ − I‖_max = {E:.3e} > 1e-10 on a window with condition number {cond:.3g}'
-    else:
-        STATS['orth_skipped_illcond'] += 1
+    alive = [bool(Q[:, r].any()) for r in range(K)]
+    ndead = alive.count(False)
+    if ndead:
+        bump('windows_with_zero_column_of_Q')
+        rk = exact_rank(win)
+        if ndead > K - rk:
+            return (f'{ndead} zero column(s) in Q but the window has exact rank {rk} of {K}: an independent column was '
+                    f'dropped')
+        for r in range(K):
+            if not alive[r] and R[r, :].any():
+                return f'column {r} of Q is zero but row {r} of R is {list(R[r, :])} (not zero)'
+    E = np.abs(Q.T @ Q - np.diag([1.0 if a else 0.0 for a in alive])).max()
+    cls = 'wellcond' if cond <= ILL else 'neardep'
+    bump(f'orth_checked_{cls}')
+    peak(f'max_orth_err_{cls}', E)
+    if not E <= ORTH_BOUND:
+        return (f'‖QᵀQ − I‖_max = {E:.3e} > {ORTH_BOUND} (window condition number {cond:.3g}, '
+                f'{st.get("reorth_note", "")}reorth_count = {d["reorth"]})')
     return None
 
 
+def normal_equations(win, b, x, cond, what):
+    """x minimises ‖A x − b‖ ⇔ Aᵀ(A x − b) = 0.  Backward-error bound without the condition number; evaluated in
+    exact rationals on nearly dependent windows (binary64 evaluation cancels there)."""
+    K = len(win)
+    A = np.array(win, dtype=float).T
+    xs = np.array(x[:K]); bb = np.array(b)
+    aF = np.linalg.norm(A)
+    scale = aF * (aF * np.linalg.norm(xs) + np.linalg.norm(bb))
+    if cond <= ILL:
+        ne = np.linalg.norm(A.T @ (A @ xs - bb))
+        cls = 'wellcond'
+    else:
+        n = len(b)
+        res = [sum(Fr(win[k][j]) * Fr(x[k]) for k in range(K)) - Fr(b[j]) for j in range(n)]
+        gvec = [sum(Fr(win[k][j]) * res[j] for j in range(n)) for k in range(K)]
+        ne = math.sqrt(float(sum(v * v for v in gvec)))
+        cls = 'neardep_exact'
+    bump(f'ls_checked_{cls}')
+    if scale > 0:
+        peak(f'max_normal_eq_{cls}', ne / scale)
+    if not ne <= NE_BOUND * scale + 1e-290:
+        return (f'{what}: normal-equation residual ‖Aᵀ(Ax − b)‖ = {ne:.3e} > {NE_BOUND}·‖A‖(‖A‖‖x‖+‖b‖) = '
+                f'{NE_BOUND * scale:.3e} (window condition number {cond:.3g}): not a least-squares minimiser')
+    if cond <= ILL:
+        xl, *_ = np.linalg.lstsq(A, bb, rcond=None)
+        a2 = np.linalg.norm(A, 2)
+        bump('ls_compared_with_lstsq')
+        if not np.linalg.norm(xs - xl) <= 1e-9 * cond * (np.linalg.norm(xl) + np.linalg.norm(bb) / a2) + 1e-290:
+            return f'{what}: x = {xs} differs from the least-squares solution {xl} (cond {cond:.3g})'
+    return None
+
+
+def solve_statement(d, n, win, b, x, skipped, what):
+    """The statement of `history_solve_least_squares` on the real outputs, for the skipped set `skipped`:
+    x_r = 0 on it; q_rᵀ(A x − b) = 0 off it (A, b: our data); least-squares minimiser of ‖A x − b‖ when every
+    skipped pivot belongs to a zero column of Q (`history_solve_least_squares_dead`), in particular when nothing is
+    skipped.  Returns (message | None, rows_failed_on): the rows whose equation failed (for attribution)."""
+    K = d['K']
+    R, Q = mats(d, n)
+    A = np.array(win, dtype=float).T
+    xs = np.array(x[:K]); bb = np.array(b)
+    for r in skipped:
+        if x[r] != 0.0:
+            return f'{what}: pivot |R[{r},{r}]| = {abs(R[r, r])!r} is not above the threshold but x[{r}] = {x[r]!r} ≠ 0', []
+    res = A @ xs - bb
+    mag_vec = np.abs(A) @ np.abs(xs) + np.abs(bb)
+    failed = []
+    for r in range(K):
+        if r in skipped:
+            continue
+        lhs = float(Q[:, r] @ res)
+        mag = float(np.abs(Q[:, r]) @ mag_vec)
+        bump('row_equations_checked')
+        if not abs(lhs) <= ROW_BOUND * mag + 1e-290:
+            failed.append((r, lhs, mag))
+    if failed:
+        r, lhs, mag = failed[0]
+        return (f'{what}: row {r} of the normal equations violated: q_{r}ᵀ(A x − b) = {lhs!r} '
+                f'(bound {ROW_BOUND * mag:.3e}); x = {list(xs)}'), [f[0] for f in failed]
+    cond = window_cond(A)
+    if not skipped:
+        return normal_equations(win, b, x, cond, what), []
+    dead = all(not Q[:, r].any() and not R[r, :].any() for r in skipped)
+    if dead and len(skipped) < K:
+        keep = [r for r in range(K) if r not in skipped]
+        bump('ls_only_zero_columns_skipped')
+        return normal_equations(win, b, x, window_cond(A[:, keep]), what + ' (only zero columns of Q skipped)'), []
+    # deflated statement only: the rows above are all of it
+    bump('ls_deflated_statement_only')
+    if any(R[r, r] == 0.0 and Q[:, r].any() for r in skipped):
+        bump('zero_pivot_on_nonzero_column_of_Q')     # dependent column followed by remove_column
+    return None, []
+
+
 def new_col_dependent(win, v):
-    """Is the window *with* the column being added numerically rank deficient?  (v = 0, v in the span
-    of the window, more columns than rows, or an earlier dependent column still in the window: in all
-    these cases no orthonormal Q can come out of Gram-Schmidt and norm_q is 0 up to rounding.)"""
+    """Is the window *with* the column being added numerically rank deficient?"""
     M = np.array(list(win) + [v], dtype=float).T
     nrm = np.linalg.norm(M, axis=0)
     if np.any(nrm == 0) or M.shape[1] > M.shape[0]:
@@ -371,7 +588,7 @@ def new_col_dependent(win, v):
 
 
 def qr_monitor(kind, t, o, S):
-    """S: dict with n, m, win (list of columns), head, poisoned; returns violation or None."""
+    """S: dict with n, m, win (list of columns), head; returns violation or None."""
     n, m = S['n'], S['m']
     if kind == 'solve':
         b = t.vec(); tol = t.flt(); x0 = t.vec()
@@ -381,108 +598,65 @@ def qr_monitor(kind, t, o, S):
             return 'solve output size'
         if any(x[i] != x0[i] for i in range(K, m)):
             return f'solve_col wrote beyond the first {K} entries'
-        if S['poisoned']:
-            STATS['poisoned_skipped'] += 1
-            return None
         d = S['last']
-        R = np.array(d['R']).reshape(K, K).T
-        Q = np.array(d['Q']).reshape(K, n).T
-        A = np.array(S['win'], dtype=float).T
-        bb = np.array(b)
-        xs = np.array(x[:K])
+        R, Q = mats(d, n)
         skipped = [r for r in range(K) if abs(R[r, r]) <= tol]
-        for r in skipped:
-            if x[r] != 0.0:
-                return f'pivot |R[{r},{r}]| = {abs(R[r, r])!r} ≤ tol = {tol!r} but x[{r}] = {x[r]!r} ≠ 0'
         if not finite(x[:K]):
+            if S.get('nonfinite_input'):
+                bump('exempt_nonfinite_input')
+                return None
+            if tol < 0 and any(R[r, r] == 0.0 for r in range(K)):
+                # hypothesis `0 ≤ tol ∨ PivNZ s` of history_solve_least_squares: a negative threshold skips nothing
+                bump('exempt_negative_tol_zero_pivot')
+                return None
             if any(R[r, r] == 0.0 for r in range(K) if r not in skipped):
-                # only possible for tol < 0 (`|R| <= tol` skips every exactly zero pivot when tol ≥ 0)
-                STATS['zero_pivot_divisions'] += 1
-                if tol < 0:
-                    return None
                 return (f'solve_col(b, x, tol = {tol!r}) divides by an exactly zero pivot: x = {x[:K]}', KEY_ZPIV)
-            return f'solve_col returned non-finite entries {x[:K]} on a finite factorisation'
-        qtb = Q.T @ bb
-        for r in range(K):
-            if r in skipped:
-                continue
-            lhs = float(R[r, :] @ xs)
-            mag = float(np.abs(R[r, :]) @ np.abs(xs)) + abs(qtb[r]) + np.linalg.norm(bb)
-            if not abs(lhs - qtb[r]) <= 1e-10 * mag:
-                return (f'row {r} of R x = Qᵀb violated: (R x)[{r}] = {lhs!r}, (Qᵀb)[{r}] = {qtb[r]!r}')
+            return f'solve_col returned non-finite entries {x[:K]} on finite data'
+        bump('solve_checked')
         if skipped:
-            STATS['solve_thresholded'] += 1
-            # dependent columns (exactly zero pivots, zero columns of Q): when nothing else is skipped the
-            # result must still be a least-squares minimiser of ‖A x − b‖ — monitored, not proved
-            if all(R[r, r] == 0.0 for r in skipped) and len(skipped) < K:
-                keep = [r for r in range(K) if r not in skipped]
-                dead = all(not Q[:, r].any() and not R[r, :].any() for r in skipped)
-                csub = window_cond(Q[:, keep] @ R[np.ix_(keep, keep)])
-                if dead and csub <= 1e5 and np.linalg.norm(A, 2) > 0:
-                    res = A @ xs - bb
-                    ne = np.linalg.norm(A.T @ res)
-                    scale = np.linalg.norm(A, 2) * (np.linalg.norm(A, 2) * np.linalg.norm(xs) + np.linalg.norm(bb))
-                    STATS['solve_dependent_checked'] += 1
-                    if not ne <= 1e-9 * csub * scale + 1e-290:
-                        return (f'dependent window, only the exactly zero pivots {skipped} skipped: normal-equation '
-                                f'residual ‖Aᵀ(Ax − b)‖ = {ne:.3e} > {1e-9 * csub * scale:.3e}: x is not a '
-                                f'least-squares minimiser')
-            return None
-        cond = S.get('cond', math.inf)
-        if cond <= 1e5:
-            res = A @ xs - bb
-            ne = np.linalg.norm(A.T @ res)
-            scale = np.linalg.norm(A, 2) * (np.linalg.norm(A, 2) * np.linalg.norm(xs) + np.linalg.norm(bb))
-            STATS['solve_checked'] += 1
-            if scale > 0:
-                STATS['max_normal_eq'] = max(STATS['max_normal_eq'], ne / scale)
-            if not ne <= 1e-10 * cond * scale + 1e-290:
-                return (f'normal-equation residual ‖Aᵀ(Ax − b)‖ = {ne:.3e} > 1e-10·cond·‖A‖(‖A‖‖x‖+‖b‖) = '
-                        f'{1e-10 * cond * scale:.3e}: x is not the least-squares minimiser')
-            xl, *_ = np.linalg.lstsq(A, bb, rcond=None)
-            a2 = np.linalg.norm(A, 2)
-            if not np.linalg.norm(xs - xl) <= 1e-9 * cond * (np.linalg.norm(xl) + np.linalg.norm(bb) / a2) + 1e-290:
-                return f'solve_col x = {xs} differs from the least-squares solution {xl} (cond {cond:.3g})'
-        return None
+            bump('solve_thresholded')
+        msg, _ = solve_statement(d, n, S['win'], b, x, skipped, f'solve_col(tol = {tol!r})')
+        return msg
 
     # state-changing ops ------------------------------------------------------------------
     added = None
     if kind == 'new':
-        S['win'], S['head'], S['poisoned'] = [], 0, False
+        S['win'], S['head'], S['nonfinite_input'] = [], 0, False
     elif kind == 'add':
         added = t.vec()
-        S['dep'] = new_col_dependent(S['win'], added)
+        if not finite(added):
+            S['nonfinite_input'] = True
+        S['dep'] = new_col_dependent(S['win'], added) if finite(added) else True
         S['win'] = S['win'] + [added]
     elif kind == 'rem':
         S['win'] = S['win'][1:]
         S['head'] = (S['head'] + 1) % m
     elif kind == 'scale':
         f = t.flt()
+        if not math.isfinite(f):
+            S['nonfinite_input'] = True
         S['win'] = [[f * x for x in c] for c in S['win']]
     elif kind == 'reset':
-        S['win'], S['head'], S['poisoned'] = [], 0, False
+        S['win'], S['head'], S['nonfinite_input'] = [], 0, False
     d = parse_qr_dump(o)
     S['last'] = d
     r = check_ring(d, len(S['win']), S['head'], m)
     if r:
         return r
+    if S.get('nonfinite_input'):
+        bump('exempt_nonfinite_input')
+        return None
     if not (finite(d['R']) and finite(d['Q'])):
-        if S['poisoned']:
-            STATS['poisoned_skipped'] += 1
-            return None
-        S['poisoned'] = True
         if kind == 'add' and S.get('dep'):
-            STATS['dependent_adds'] += 1
             return (f'add_column of a column in the span of the current window (here {added}) divides by '
                     f'norm_q = 0: Q/R contain NaN and every later result is NaN until reset()', KEY_DEP)
         return f'non-finite entries in Q/R after {kind} on finite data'
-    if S['poisoned']:
-        # NaN column rotated out by Givens? then the state is clean again
-        S['poisoned'] = False
     if kind == 'add' and S.get('dep'):
-        # numerically dependent but no NaN: Q cannot be orthonormal; only the bookkeeping is demanded
-        STATS['dependent_adds'] += 1
-    return check_factorisation(d, S['win'], n, S)
+        bump('dependent_adds')
+    e = check_factorisation(d, S['win'], n, S)
+    if e:
+        return e
+    return check_eig(d, n)
 
 
 # ---------------------------------------------------------------- Anderson monitors
@@ -492,7 +666,7 @@ def aa_monitor(kind, t, o, st):
     if kind == 'anew':
         n = t.nat(); mem = t.nat(); mdf = t.flt()
         Sa = st['aa'] = {'n': n, 'mem': mem, 'mdf': mdf, 'init': False, 'g': [], 'dr': [], 'rl': None,
-                         'poisoned': False, 'head': 0}
+                         'nonfinite_input': False, 'head': 0}
     if Sa is None:
         return None if o.t == ['no-object'] else 'operation on a missing object did not say so'
     n, mem = Sa['n'], Sa['mem']
@@ -514,21 +688,26 @@ def aa_monitor(kind, t, o, st):
         return None if init == 0 and d['K'] == 0 else 'fresh accelerator is initialised / non-empty'
     if kind == 'ainit':
         g = t.vec(); r = t.vec()
-        Sa.update(init=True, g=[g], dr=[], rl=r, poisoned=False, head=0)
+        Sa.update(init=True, g=[g], dr=[], rl=r, head=0, nonfinite_input=not (finite(g) and finite(r)))
     elif kind == 'areset':
         if not Sa['init']:
             return None
-        Sa.update(g=Sa['g'][-1:], dr=[], poisoned=False, head=0)
+        Sa.update(g=Sa['g'][-1:], dr=[], head=0)
+        Sa['nonfinite_input'] = not (finite(Sa['g'][-1]) and finite(Sa['rl']))
     elif kind == 'ascale':
         f = t.flt()
+        if not math.isfinite(f):
+            Sa['nonfinite_input'] = True
         Sa['dr'] = [[f * v for v in c] for c in Sa['dr']]
     elif kind == 'acomp':
+        if not (finite(g) and finite(r)):
+            Sa['nonfinite_input'] = True
         newcol = [a - b for a, b in zip(r, Sa['rl'])]
         if len(Sa['dr']) == mAA:
             Sa['dr'] = Sa['dr'][1:]
             Sa['g'] = Sa['g'][1:]
             Sa['head'] = (Sa['head'] + 1) % mAA
-        Sa['dep'] = new_col_dependent(Sa['dr'], newcol)
+        Sa['dep'] = new_col_dependent(Sa['dr'], newcol) if finite(newcol) else True
         Sa['dr'] = Sa['dr'] + [newcol]
         Sa['g'] = Sa['g'] + [g]
         Sa['rl'] = r
@@ -547,29 +726,27 @@ def aa_monitor(kind, t, o, st):
         return f'G ring not aligned with the R ring: stored {cols}, expected function values {exp}'
     if [f2h(v) for v in rl] != [f2h(v) for v in Sa['rl']]:
         return 'stored previous residual differs from the last residual passed in'
-    if kind != 'acomp':
-        if finite(d['R']) and finite(d['Q']) and not Sa['poisoned']:
-            return check_factorisation(d, Sa['dr'], n, Sa) if K else None
+    if Sa['nonfinite_input'] or not all(finite(c) for c in Sa['dr']):
+        bump('exempt_nonfinite_input')
         return None
-    # ---- compute ----
-    if len(gam) != K:
-        return 'γ_LS size'
-    if not (finite(d['R']) and finite(d['Q']) and finite(x) and finite(gam)):
-        if Sa['poisoned']:
-            STATS['poisoned_skipped'] += 1
-            return None
-        Sa['poisoned'] = True
-        if Sa.get('dep'):
-            STATS['dependent_adds'] += 1
+    outs_finite = finite(d['R']) and finite(d['Q']) and (kind != 'acomp' or (finite(x) and finite(gam)))
+    if not outs_finite:
+        if kind == 'acomp' and Sa.get('dep') and not (finite(d['R']) and finite(d['Q'])):
             return (f'AndersonAccel::compute with a residual difference in the span of the stored ones '
                     f'(here rₖ − rₗₐₛₜ = {newcol}) divides by norm_q = 0 in add_column: xₖ_aa is NaN and stays NaN '
                     f'until reset()', KEY_DEP)
-        if not finite(d['R']) or not finite(d['Q']):
-            return 'non-finite entries in Q/R after compute on finite data'
-        return None                                   # zero pivot with min_div_fac = 0: outside the statement
-    Sa['poisoned'] = False
-    STATS['aa_checked'] += 1
-    # window length: last min(k, memory, n) residual differences — K is our own count; check_ring compared
+        if kind == 'acomp' and Sa['mdf'] < 0:
+            bump('exempt_negative_tol_zero_pivot')      # hypothesis `0 ≤ mdf` of anderson_gamma_least_squares_every
+            return None
+        return (f'non-finite output of AndersonAccel::{ {"acomp": "compute", "ascale": "scale_R", "areset": "reset", "ainit": "initialize"}[kind] } '
+                f'on finite data: x_aa = {x}, γ_LS = {gam}')
+    if kind != 'acomp':
+        e = check_factorisation(d, Sa['dr'], n, Sa) if K else None
+        return ('Anderson QR: ' + e) if e else check_eig(d, n)
+    # ---- compute ----
+    if len(gam) != K:
+        return 'γ_LS size'
+    bump('aa_checked')
     # affine combination in exact rationals
     G = Sa['g'][-(K + 1):]
     gq = [Fr(v) for v in gam]
@@ -586,29 +763,29 @@ def aa_monitor(kind, t, o, st):
     e = check_factorisation(d, Sa['dr'], n, Sa)
     if e:
         return 'Anderson QR: ' + e
-    # γ_LS solves the least-squares problem over the window (unless a pivot was thresholded)
-    R = np.array(d['R']).reshape(K, K).T
-    tol = d['max'] * Sa['mdf']
-    if any(abs(R[r, r]) <= tol for r in range(K)):
-        for r in range(K):
-            if abs(R[r, r]) <= tol and gam[r] != 0.0:
-                return f'pivot {r} not above max_eig·min_div_fac but γ_LS[{r}] = {gam[r]!r} ≠ 0'
-        STATS['aa_ls_skipped'] += 1
-        return None
-    cond = Sa.get('cond', math.inf)
-    if cond <= 1e5:
-        A = np.array(Sa['dr'], dtype=float).T
-        bb = np.array(Sa['rl'])
-        gs = np.array(gam)
-        ne = np.linalg.norm(A.T @ (A @ gs - bb))
-        scale = np.linalg.norm(A, 2) * (np.linalg.norm(A, 2) * np.linalg.norm(gs) + np.linalg.norm(bb))
-        STATS['aa_ls_checked'] += 1
-        if not ne <= 1e-10 * cond * scale + 1e-290:
-            return (f'γ_LS does not solve min ‖ΔR γ − rₖ‖ over the last {K} residual differences: '
-                    f'‖ΔRᵀ(ΔRγ − rₖ)‖ = {ne:.3e}')
-    else:
-        STATS['aa_ls_skipped'] += 1
-    return None
+    # γ_LS: the statement of `anderson_gamma_least_squares` with OUR threshold min_div_fac × max |pivot| of the
+    # current R (anderson.hpp: "minimum divisor …, scaled by the maximum eigenvalue of R")
+    R, _ = mats(d, n)
+    pmax = max(abs(R[r, r]) for r in range(K))
+    tol_own = Sa['mdf'] * pmax
+    own_sk = [r for r in range(K) if abs(R[r, r]) <= tol_own]
+    if own_sk:
+        bump('aa_ls_thresholded')
+    msg, failed = solve_statement(d, n, Sa['dr'], Sa['rl'], gam, own_sk,
+                                  f'γ_LS (threshold min_div_fac·max|pivot| = {tol_own!r})')
+    if msg:
+        tol_code = Sa['mdf'] * d['max']
+        code_sk = [r for r in range(K) if abs(R[r, r]) <= tol_code]
+        stale = bool(check_eig(d, n))
+        if stale and failed and all(r in code_sk and gam[r] == 0.0 for r in failed):
+            bump('aa_component_zeroed_by_stale_threshold')
+            return (f'AndersonAccel::compute zeroes γ_LS{failed} although the pivots {[float(R[r, r]) for r in failed]} are '
+                    f'far above min_div_fac × max |pivot of the current R| = {tol_own!r}: the threshold uses the stale '
+                    f'get_max_eig() = {d["max"]!r} (current max pivot {pmax!r}); γ_LS = {gam}'
+                    + (' — all coefficients are 0: x_aa is the plain fixed-point step g' if not any(gam) else ''), KEY_EIG)
+        return msg
+    bump('aa_ls_checked')
+    return check_eig(d, n)
 
 
 # ---------------------------------------------------------------- dispatcher
@@ -623,7 +800,7 @@ def monitor(op, out, st):
         return aa_monitor(kind, t, o, st)
     if kind == 'new':
         n = t.nat(); m = t.nat()
-        st['qr'] = {'n': n, 'm': m, 'win': [], 'head': 0, 'poisoned': False}
+        st['qr'] = {'n': n, 'm': m, 'win': [], 'head': 0, 'nonfinite_input': False}
         st['stack'] = []
         return qr_monitor('new', t, o, st['qr'])
     S = st.get('qr')
@@ -648,7 +825,29 @@ def nontrivial(op, out):
     return None
 
 
+# classes the property's quantifier names (or a theorem hypothesis excludes) that every run must have exercised
+REQUIRED = {
+    'orth_checked_neardep': 'Gram matrix checked on nearly dependent windows (cond > 1e5)',
+    'gen_neardep_angle_adds': 'nearly parallel columns (angle 1e-8…1e-12): one MGS pass vs. reorthogonalisation',
+    'ls_checked_neardep_exact': 'normal equations in exact rationals on nearly dependent windows',
+    'ls_checked_wellcond': 'normal equations on well-conditioned windows',
+    'ls_only_zero_columns_skipped': 'dependent windows where only zero columns of Q are skipped',
+    'ls_deflated_statement_only': 'skipped pivot on a nonzero column of Q (deflated statement)',
+    'zero_pivot_on_nonzero_column_of_Q': 'dependent column followed by remove_column',
+    'windows_with_zero_column_of_Q': 'exactly dependent columns',
+    'exempt_negative_tol_zero_pivot': 'negative threshold on a zero pivot (hypothesis 0 ≤ tol ∨ PivNZ)',
+    'gen_converging_aa_steps': 'Anderson on residuals shrinking over many orders of magnitude',
+    'aa_ls_thresholded': 'Anderson solves with a pivot below min_div_fac·max|pivot|',
+    'aa_ls_checked': 'Anderson γ_LS statement checked',
+    'eig_bounds_compared': 'get_min_eig / get_max_eig compared with the diagonal of the current R',
+}
+
+
 def extra_stage(rep, broken, exe, tier):
+    if exe:
+        for k, why in REQUIRED.items():
+            if not STATS.get(k):
+                broken.append(f'required coverage class never exercised in this run: {k} ({why})')
     rep.cov['monitor_stats'] = {k: (float(f'{v:.3e}') if isinstance(v, float) else v) for k, v in STATS.items()}
     rep.note('monitor stats: ' + ', '.join(f'{k}={v if not isinstance(v, float) else format(v, ".2e")}'
                                            for k, v in STATS.items()))
